@@ -120,8 +120,17 @@ class PydanticGrammar(BaseGrammar):
         self.__model_needs_rebuild = True
 
     def _copy(self, grammar: Self) -> None:  # noqa:D102
-        grammar.__model = copy(self.__model)
-        grammar.__model_needs_rebuild = self.__model_needs_rebuild
+        if hasattr(self.__model, "__internal__"):
+            # copy() returns a class as is:
+            # fill the model created by the new grammar with copies of the fields
+            # such that they are not shared with the copied grammar.
+            grammar.__model.model_fields.update({
+                name: copy(field) for name, field in self.__model.model_fields.items()
+            })
+            grammar.__model_needs_rebuild = True
+        else:
+            grammar.__model = self.__model
+            grammar.__model_needs_rebuild = self.__model_needs_rebuild
 
     def _rename_element(self, current_name: str, new_name: str) -> None:  # noqa:D102
         fields = self.__model.model_fields
